@@ -332,7 +332,7 @@ type c13Case struct {
 
 func c13Round(r *Run, rng *gen.Rng, st *c13Stats, corpus []string, roundSize, sweepN int) error {
 	b := c13Budgets()
-	mounts := []string{"/sim/m", "/sim/m", "/w/my proj", "/a/b/c/d", "/m", "/home/u/.dotfiles/p", "/w/proj-1.2/src", "/w/projet-été/src"}
+	mounts := []string{"/sim/m", "/sim/m", "/w/my proj", "/a/b/c/d", "/m", "/home/u/.dotfiles/p", "/w/proj-1.2/src", "/w/projet-été/src", "/w/backup-2026-09-24T10:30:00/p", "/w/greeter:v2"}
 	exes := []string{"/sim/x", "/opt/tsh/bin", "/sim/m/bin"}
 	mk := func(gw *gen.GenWorld, family, corrupt string) c13Case {
 		mount, exe := rng.Pick(mounts), rng.Pick(exes)
